@@ -3,6 +3,7 @@ package c16
 import (
 	"io"
 	"net"
+	"os"
 	"sync"
 	"time"
 )
@@ -25,10 +26,46 @@ type bhalf struct {
 	plan    []int
 	planIdx int
 	written int64
+	rdl     time.Time // read deadline of the reading end (crypto/tls sets deadlines around close_notify)
+	wdl     time.Time // write deadline of the writing end
 }
 
 func newBhalf(capa int, plan []int) *bhalf {
 	return &bhalf{capa: capa, plan: plan, changed: make(chan struct{})}
+}
+
+// wait blocks until the state changes (ch is closed) or the deadline dl (zero = none) passes.
+func waitChange(ch chan struct{}, dl time.Time) {
+	if dl.IsZero() {
+		<-ch
+		return
+	}
+	d := time.Until(dl)
+	if d <= 0 {
+		return
+	}
+	t := time.NewTimer(d)
+	defer t.Stop()
+	select {
+	case <-ch:
+	case <-t.C:
+	}
+}
+
+func expired(dl time.Time) bool { return !dl.IsZero() && !time.Now().Before(dl) }
+
+func (h *bhalf) setReadDeadline(t time.Time) {
+	h.mu.Lock()
+	h.rdl = t
+	h.notify()
+	h.mu.Unlock()
+}
+
+func (h *bhalf) setWriteDeadline(t time.Time) {
+	h.mu.Lock()
+	h.wdl = t
+	h.notify()
+	h.mu.Unlock()
 }
 
 // notify wakes every waiter. Must be called with mu held.
@@ -43,6 +80,10 @@ func (h *bhalf) read(b []byte) (int, error) {
 		if h.rclosed {
 			h.mu.Unlock()
 			return 0, io.ErrClosedPipe
+		}
+		if expired(h.rdl) {
+			h.mu.Unlock()
+			return 0, os.ErrDeadlineExceeded
 		}
 		if len(h.buf) > 0 {
 			if len(b) == 0 {
@@ -70,9 +111,9 @@ func (h *bhalf) read(b []byte) (int, error) {
 			h.mu.Unlock()
 			return 0, io.EOF
 		}
-		ch := h.changed
+		ch, dl := h.changed, h.rdl
 		h.mu.Unlock()
-		<-ch
+		waitChange(ch, dl)
 	}
 }
 
@@ -83,6 +124,10 @@ func (h *bhalf) write(b []byte) (int, error) {
 		if h.wclosed || h.rclosed {
 			h.mu.Unlock()
 			return n, io.ErrClosedPipe
+		}
+		if expired(h.wdl) {
+			h.mu.Unlock()
+			return n, os.ErrDeadlineExceeded
 		}
 		if len(b) == 0 {
 			h.mu.Unlock()
@@ -103,9 +148,9 @@ func (h *bhalf) write(b []byte) (int, error) {
 				return n, nil
 			}
 		}
-		ch := h.changed
+		ch, dl := h.changed, h.wdl
 		h.mu.Unlock()
-		<-ch
+		waitChange(ch, dl)
 	}
 }
 
@@ -145,16 +190,20 @@ func bpair(capAB int, planAB []int, capBA int, planBA []int) (a, b *bconn) {
 	return &bconn{rd: ba, wr: ab}, &bconn{rd: ab, wr: ba}
 }
 
-func (c *bconn) Read(b []byte) (int, error)       { return c.rd.read(b) }
-func (c *bconn) Write(b []byte) (int, error)      { return c.wr.write(b) }
-func (c *bconn) CloseWrite() error                { c.wr.closeWrite(); return nil }
-func (c *bconn) CloseRead() error                 { c.rd.closeRead(); return nil }
-func (c *bconn) Close() error                     { c.wr.closeWrite(); c.rd.closeRead(); return nil }
-func (c *bconn) LocalAddr() net.Addr              { return baddr{} }
-func (c *bconn) RemoteAddr() net.Addr             { return baddr{} }
-func (c *bconn) SetDeadline(time.Time) error      { return nil }
-func (c *bconn) SetReadDeadline(time.Time) error  { return nil }
-func (c *bconn) SetWriteDeadline(time.Time) error { return nil }
-func (c *bconn) bytesWritten() int64              { c.wr.mu.Lock(); defer c.wr.mu.Unlock(); return c.wr.written }
-func (c *bconn) peerClosedWrite() bool            { c.rd.mu.Lock(); defer c.rd.mu.Unlock(); return c.rd.wclosed }
-func (c *bconn) peerClosedRead() bool             { c.wr.mu.Lock(); defer c.wr.mu.Unlock(); return c.wr.rclosed }
+func (c *bconn) Read(b []byte) (int, error)  { return c.rd.read(b) }
+func (c *bconn) Write(b []byte) (int, error) { return c.wr.write(b) }
+func (c *bconn) CloseWrite() error           { c.wr.closeWrite(); return nil }
+func (c *bconn) CloseRead() error            { c.rd.closeRead(); return nil }
+func (c *bconn) Close() error                { c.wr.closeWrite(); c.rd.closeRead(); return nil }
+func (c *bconn) LocalAddr() net.Addr         { return baddr{} }
+func (c *bconn) RemoteAddr() net.Addr        { return baddr{} }
+func (c *bconn) SetDeadline(t time.Time) error {
+	c.rd.setReadDeadline(t)
+	c.wr.setWriteDeadline(t)
+	return nil
+}
+func (c *bconn) SetReadDeadline(t time.Time) error  { c.rd.setReadDeadline(t); return nil }
+func (c *bconn) SetWriteDeadline(t time.Time) error { c.wr.setWriteDeadline(t); return nil }
+func (c *bconn) bytesWritten() int64                { c.wr.mu.Lock(); defer c.wr.mu.Unlock(); return c.wr.written }
+func (c *bconn) peerClosedWrite() bool              { c.rd.mu.Lock(); defer c.rd.mu.Unlock(); return c.rd.wclosed }
+func (c *bconn) peerClosedRead() bool               { c.wr.mu.Lock(); defer c.wr.mu.Unlock(); return c.wr.rclosed }
